@@ -379,6 +379,51 @@ def c06_histories(tier, sched_kind, balance, acc):
                     V('result-depends-on-call-history', '-', f'input {i} after history {seq[:step]} differs from a fresh scheduler')
 
 
+def c06_edit_histories(sched_kind, balance, acc):
+    """calc(w); edit w through the public API; calc(w) again on the SAME scheduler object: the second result is the one
+    a fresh scheduler gives for the edited WBS."""
+    A = MON if sched_kind == 'fwd' else MON + 21 * DAY
+    for par, links in (((None, None), ((0, 1),)), ((None, 0, 0), ()), ((None, 0, None), ((2, 1),))):
+        lv = [i for i in range(len(par)) if LY.is_leaf(par, i)]
+        attrs = {i: {'estimate': 4 + 4 * k, 'resource': 'A'} for k, i in enumerate(lv)}
+        sc = Scenario(sched_kind, balance, A, LY.mk_tasks(par, attrs), list(links), cals={'A': 'sparse'}, layer='HE')
+        for edit in ('estimate', 'spent', 'resource', 'add-task', 'remove-task', 'unlink', 'min_start'):
+            w, objs, ext = build(sc)
+            resources, _ = make_resources(sc)
+            sch = make_scheduler(sc, resources)
+            ex1 = execute(sc, prebuilt=(w, objs, ext), scheduler=sch)
+            from pjplan import Task
+            leaf = objs[lv[-1]]
+            if edit == 'estimate':
+                leaf.estimate = 20
+            elif edit == 'spent':
+                leaf.spent = 3
+            elif edit == 'resource':
+                leaf.resource = 'B'
+            elif edit == 'add-task':
+                w.roots.append(Task(99, 'extra', resource='A', estimate=8))
+            elif edit == 'remove-task':
+                w.remove(leaf)
+            elif edit == 'unlink':
+                for t in objs:
+                    t.predecessors = []
+            elif edit == 'min_start' and sched_kind == 'fwd':
+                leaf.min_start = A + 3 * DAY
+            ex2 = execute(sc, prebuilt=(w, objs, ext), scheduler=sch)
+            resources3, _ = make_resources(sc)
+            ex3 = execute(sc, prebuilt=(w, objs, ext), scheduler=make_scheduler(sc, resources3))
+            acc.count('executions', 3)
+            acc.count('executions:HE', 3)
+            acc.count('nontrivial')
+            acc.count('premise:calc-edit-calc')
+            k2 = outcome_key(SchedObs(ex2)) if ex2.status == 'ok' else ex2.status
+            k3 = outcome_key(SchedObs(ex3)) if ex3.status == 'ok' else ex3.status
+            if k2 != k3:
+                V, _ = _mk_V(acc, 'C06', sc, {'edit': edit})
+                V('result-after-edit-depends-on-earlier-call', edit, f'after {edit}: calc on the scheduler that had already scheduled '
+                  f'the WBS differs from a fresh scheduler')
+
+
 def c06_clock(sc, acc):
     """(d) forward: all clock schedules with values <= project start give the same schedule."""
     S = MON + LY.H9
@@ -412,6 +457,7 @@ def _work_c06(chunk):
         combos = [(s, b) for s in ('fwd', 'bwd') for b in (True, False)]
         for s, b in combos[i::n]:
             c06_histories(tier, s, b, acc)
+            c06_edit_histories(s, b, acc)
         return acc
     gen = dict(_c06_layers(tier))[lname]()
     for sc in itertools.islice(gen, i, None, n):
